@@ -226,6 +226,16 @@ CHECKS["C15"] = ("exploration",
     "of facts that TLC compares. The evidence lists the message types of the package that were not exercised.",
     "Trusted: TLC (set equality), the observation function of vlib/props/C15.py. Thin use of the specification (DESIGN.md section 5). Sockets are not used.",
     "DESIGN.md section 4 C15")
+
+CHECKS["C30"] = ("exploration",
+    "TLC-enumerated generator arguments (Gen_C30); outputs of the real generators judged by TLC against Generators.tla (Judge_C30)",
+    "Graph colouring: graph kind x sizes x colours x hard/soft x extensive/intentional x edge parameters x allow_subgraph x seeds, run through the command's generate(args) "
+    "with an output file that is loaded back, compared with the graph the generator built (captured from the harness): requested variables and colours, exactly one "
+    "constraint per edge, hard constraints are inequalities, soft costs in range. Ising: grids 2..4 x 2..4, intentional and extensive forms generated with the same seed "
+    "must agree on every assignment, variable and factor-graph distributions host each computation exactly once. Scenario: each event removes the requested number of "
+    "distinct agents never removed before.",
+    "Trusted: TLC (Generators.tla), the graph capture and YAML re-loading in vlib/props/C30.py. Thin use of the specification (inputs and well-formedness predicates).",
+    "DESIGN.md section 4 C30")
 NOT_YET = "check not built yet in this snapshot (work in progress, see DESIGN.md section 9)"
 
 fix_commits = subprocess.run(["git", "-C", "/repo", "log", "--format=%h %s", "aeaae91..HEAD"], capture_output=True, text=True).stdout.splitlines()
